@@ -4,6 +4,8 @@ package vsched
 
 import (
 	"fmt"
+	"os"
+	"strconv"
 	"strings"
 	"testing"
 	"time"
@@ -70,6 +72,20 @@ func RunScenarios(t *testing.T, r *vk.Run, props []string, scs []Scenario) {
 			return
 		}
 		r.EngineError("replay: scenario %q not found", rp.Scenario)
+		return
+	}
+	if n := os.Getenv("VERIF_FREE_RUN"); n != "" {
+		iters, _ := strconv.Atoi(n)
+		total := 0
+		for _, sc := range scs {
+			total += RunFree(t, Config{Name: sc.Name, Body: sc.Body}, iters)
+		}
+		for _, p := range props {
+			r.Eval(p, int64(total))
+			r.NontrivialN(p, int64(total))
+			r.Rule(p, "free-running race-detector pass (sampling; decides nothing)")
+			r.Sample(p, "free run")
+		}
 		return
 	}
 	legStart := time.Now()
